@@ -56,7 +56,12 @@ pub enum CAct {
     DistInstantiate { g: usize, d: usize },
     LairInstantiate { growth: usize, nassets: usize },
     LairGrowth { growth: usize },
-    TakeRate { r: usize },
+    TakeRate {
+        r: usize,
+        /// the same message also sets the on/off switch of the take rate (None = field absent)
+        #[serde(default)]
+        switch: Option<bool>,
+    },
     /// amplification ramp on the most recently created trio (or the base trio) through the factory
     TrioRamp { kind: String },
     AdvanceBlocks { n: u64 },
@@ -175,7 +180,9 @@ impl Scenario for ConfigScn {
                     }
                 }
                 for r in 0..take_rates().len() {
-                    v.push(CAct::TakeRate { r });
+                    v.push(CAct::TakeRate { r, switch: None });
+                    v.push(CAct::TakeRate { r, switch: Some(false) });
+                    v.push(CAct::TakeRate { r, switch: Some(true) });
                 }
             }
         }
@@ -396,11 +403,11 @@ impl Scenario for ConfigScn {
                 r.is_ok()
             }
             CAct::LairGrowth { growth } => w.exec(OWNER, &h.fee.lair, &white_whale_std::whale_lair::ExecuteMsg::UpdateConfig { owner: None, unbonding_period: None, growth_rate: Some(growths()[*growth]), fee_distributor_addr: None }, &[]).is_ok(),
-            CAct::TakeRate { r } => w
+            CAct::TakeRate { r, switch } => w
                 .exec(
                     OWNER,
                     &h.fee.collector,
-                    &white_whale_std::fee_collector::ExecuteMsg::UpdateConfig { owner: None, pool_router: None, fee_distributor: None, pool_factory: None, vault_factory: None, take_rate: Some(take_rates()[*r]), take_rate_dao_address: None, is_take_rate_active: None },
+                    &white_whale_std::fee_collector::ExecuteMsg::UpdateConfig { owner: None, pool_router: None, fee_distributor: None, pool_factory: None, vault_factory: None, take_rate: Some(take_rates()[*r]), take_rate_dao_address: None, is_take_rate_active: *switch },
                     &[],
                 )
                 .is_ok(),
